@@ -312,6 +312,10 @@ def catalogue_c06(tier):
     for nm, inner in [('zip', T('zip', ins=[S(1), S(2)])), ('merge', T('merge', ins=[S(1), S(2)])), ('combine_latest', T('combine_latest', ins=[S(1), S(2)]))]:
         root = T('on_error_resume_next', 0, 'slow', ins=[inner])
         cs.append(case('c06/resume-slow-over-%s/sibling-emits-meanwhile' % nm, root, [[E(1, 'e', 5)], [SL(60), E(2, 'n', 21), SL(400)]], tags=['released-before-resume', 'count']))
+    # a subscriber that ends by itself on an item another thread emits WHILE it is still subscribing must not stay registered
+    for kind in ['plain', 'behavior', 'replay']:
+        for nm, root in [('take1', T('take', 1, ins=[S(1)])), ('first', T('first', ins=[S(1)])), ('take_while', T('take_while', 0, 'false', ins=[S(1)]))]:
+            cs.append(case('c06/%s-subject/%s-joiner-vs-producer' % (kind, nm), root, [[{'op': 'sub', 'u': 1}], items(1, 2)], pre=[], post=[E(1, 'n', 99)], sbj=[kind], tags=['no-observer-left', 'count']))
     return cs
 
 
